@@ -24,6 +24,12 @@ def main():
     if a.replay:
         return mod.replay(a.replay) if hasattr(mod, 'replay') else common.generic_replay(a.replay)
     chk = common.Check(a.id, a.tier)
+    # global watchdog: a check that hangs (e.g. a non-terminating computation under a changed tree) is an internal
+    # error / timeout (exit 2), never a verdict
+    import threading
+    t = threading.Timer({'quick': 1500, 'thorough': 7200}[a.tier], lambda: (print(f'[{a.id}] TIMEOUT after the global time limit', flush=True), os._exit(2)))
+    t.daemon = True
+    t.start()
     drv = None
     try:
         drv = common.standard_build(chk, mod.GENS, mod.TARGETS, mod.THEOREMS, mod.PROP_FILES)
@@ -34,6 +40,7 @@ def main():
                 mod.correspondence(chk, drv)
             except Exception as e:  # the implementation (or the harness) failed in an unexpected way
                 chk.oblige('corr:harness', 'correspondence', False, traceback.format_exc()[-1500:])
+        chk.start_search(bool(chk.broken()))
         mod.search(chk, bool(chk.broken()))
     except Exception:
         traceback.print_exc()
